@@ -151,6 +151,9 @@ def gen_script(rnd, tier):
                 if rnd.random() < 0.15:
                     # ... and the CLASS object is given directly provided interfaces of its own (`@provider`): nothing else changes
                     L.append("cprov %d%s : %s" % (objs[o], rnd.choice(["", " d"]), " ".join(map(str, rnd.sample(range(1, n + 1), rnd.randint(0, min(2, n)))))))
+                if rnd.random() < 0.2:
+                    # ... or its METACLASS gets a declaration (after the class's own specification has long been computed)
+                    L.append("mprov %d%s : %s" % (objs[o], rnd.choice(["", " d"]), " ".join(map(str, rnd.sample(range(1, n + 1), rnd.randint(1, min(2, n)))))))
             elif kind == "also":
                 L.append("also %d : %s" % (o, " ".join(map(str, xs))))
             else:
@@ -188,8 +191,8 @@ def oracle(chk, lines, outs):
         def subclasses(c):
             return {k for k in S["pyb"] if c in c03.reach(S["pyb"], k)}
 
-        if op == "cprov":
-            chk.count("class_objects_given_directly_provided_interfaces")
+        if op in ("cprov", "mprov"):
+            chk.count("class_objects_given_directly_provided_interfaces" if op == "cprov" else "metaclass_declarations")
             if "CPROV-BAD" in out:
                 bad.append((i, "%s: %s" % (line, out.split("CPROV-BAD")[1].strip())))
             continue
